@@ -121,6 +121,53 @@ Ltac decomp H := repeat (first [ progress (cbv beta zeta in H) | ib H | match ty
       | match ?x with _ => _ end = IOk _ _ => destruct x; try discriminate
       end ]).
 
+Lemma str1_agree o v v' : eval_str1 o v = OV v' -> i_str1 o v = v'.
+Proof. destruct o, v; simpl; intros H; inversion H; reflexivity. Qed.
+
+Lemma str1_no_fault o v f : eval_str1 o v <> OF f.
+Proof. destruct o, v; simpl; discriminate. Qed.
+
+Lemma str2_agree o a b v : eval_str2 o a b = OV v -> i_str2 o a b = BV v.
+Proof.
+  destruct o, a, b; simpl; try discriminate; intros H.
+  - unfold concat_v in H. destruct (Z.of_nat (length s + length s0) <=? str_max)%Z; inversion H; reflexivity.
+  - unfold concat_v in H. destruct (Z.of_nat (length s + length s0) <=? str_max)%Z; inversion H; reflexivity.
+  - inversion H; reflexivity.
+  - inversion H; reflexivity.
+  - destruct (char_at_v s z); inversion H; reflexivity.
+Qed.
+
+Lemma str2_no_assert o a b : eval_str2 o a b <> OF FAssert.
+Proof.
+  destruct o, a, b; simpl; try discriminate;
+    try (match goal with |- context [concat_v ?x ?y] => destruct (concat_v x y) end; discriminate).
+  destruct (char_at_v s z); discriminate.
+Qed.
+
+Lemma substring_agree s st ln :
+  (0 <= st < Z.of_nat (length s))%Z -> (st < str_limit)%Z -> (0 <= ln < str_limit)%Z ->
+  exists r, substr_v s st ln = Some r /\ i_substring s st ln = VStr r.
+Proof.
+  intros Hs Hs2 Hl. unfold substr_v, i_substring, str_limit in *. set (n := Z.of_nat (length s)) in *.
+  replace ((0 <=? st)%Z && (st <? 4294967296)%Z && (0 <=? ln)%Z && (ln <? 4294967296)%Z) with true
+    by (symmetry; repeat (apply andb_true_iff; split); first [apply Z.leb_le|apply Z.ltb_lt]; lia).
+  eexists. split; [reflexivity|].
+  replace ((st <? 0)%Z || (n <? st)%Z || (ln <? 0)%Z) with false
+    by (symmetry; repeat (apply orb_false_iff; split); apply Z.ltb_ge; lia).
+  destruct (Z.eqb_spec st n) as [E|_]; [lia|].
+  rewrite (Z.min_l st n) by lia.
+  destruct (Z.eqb_spec ln 0) as [E|NE]; [subst ln; rewrite (Z.min_l 0 n) by lia; reflexivity|].
+  assert (W : wrap64 (st + ln) = (st + ln)%Z).
+  { unfold wrap64. rewrite Z.mod_small by lia. lia. }
+  rewrite W.
+  assert (SK : length (skipn (Z.to_nat st) s) = Z.to_nat (n - st)).
+  { rewrite skipn_length. unfold n. lia. }
+  destruct (Z.gtb_spec (st + ln) n) as [G|G].
+  - destruct (Z.gtb_spec (n - st) n) as [G2|_]; [lia|].
+    rewrite !firstn_all2; [reflexivity|rewrite SK; lia|rewrite SK; lia].
+  - destruct (Z.gtb_spec ln n) as [G2|_]; [lia|]. rewrite (Z.min_l ln n) by lia. reflexivity.
+Qed.
+
 Lemma binop_no_assert o a b : eval_binop o a b <> OF FAssert.
 Proof.
   destruct o, a, b; simpl; try discriminate;
@@ -400,6 +447,31 @@ Proof.
       * (* array_length *)
         simpl in PL. eapply agree_bind with (P := Pe S asr); [eapply IHe; eassumption| |mono_tac].
         intros va out1 va' w1 [-> [l1 [Hl1 ->]]]. destruct va as [z|b| |s0|l0]; try exact I. cbn [i_len]. apply agree_ok_Pe. exact Hl1.
+      * (* unary string builtin *)
+        simpl in PL. eapply agree_bind with (P := Pe S asr); [eapply IHe; eassumption| |mono_tac].
+        intros va out1 va' w1 [-> [l1 [Hl1 ->]]]. destruct (eval_str1 o va) as [r|f|] eqn:U; cbn [of_opres].
+        -- rewrite (str1_agree _ _ _ U). apply agree_ok_Pe. exact Hl1.
+        -- exfalso. eapply str1_no_fault; exact U.
+        -- exact I.
+      * (* binary string builtin *)
+        simpl in PL. apply andb_true_iff in PL. destruct PL as [PL1 PL2].
+        eapply agree_bind with (P := Pe S asr); [eapply IHe; eassumption| |mono_tac].
+        intros va out1 va' w1 [-> [l1 [Hl1 ->]]]. eapply agree_Pe_ext; [exact Hl1|].
+        eapply agree_bind with (P := Pe S (asr ++ l1)); [eapply IHe; eassumption| |mono_tac].
+        intros vb out2 vb' w2 [-> [l2 [Hl2 ->]]].
+        destruct (eval_str2 o va vb) as [r|f|] eqn:B; cbn [of_opres].
+        -- rewrite (str2_agree _ _ _ _ B). cbn [of_ibin]. apply agree_ok_Pe. exact Hl2.
+        -- destruct f; try exact I. exfalso. eapply str2_no_assert; exact B.
+        -- exact I.
+      * (* str_substring: a literal string, a literal start inside it, a literal length (clause (e) of names_apart) *)
+        destruct e1; try discriminate PL. destruct e2; try discriminate PL. destruct e3; try discriminate PL.
+        cbn [expr_plain] in PL. repeat (apply andb_true_iff in PL; destruct PL as [PL ?]).
+        destruct (list_eq_dec N.eq_dec (unescape s) s) as [Q|Q]; [|discriminate].
+        destruct fuel; [exact I|]. cbn [eval_expr ieval bind ibind]. rewrite Q. cbn [eval_substr i_substr].
+        destruct (substring_agree s z z0) as [r [R1 R2]];
+          [ split; [apply Z.leb_le|apply Z.ltb_lt]; assumption | apply Z.ltb_lt; assumption
+          | split; [apply Z.leb_le|apply Z.ltb_lt]; assumption |].
+        rewrite R1, R2. cbn [of_opres]. apply agree_ok_Pe0.
     + (* ------------------------------------------------------------ statements *)
       red. intros genv base en outer s out asr G LO BK SP.
       set (rest := outer ++ genv ++ base) in *.
